@@ -245,4 +245,172 @@ theorem piter_close {g : Graph ℚ} (hg : g.Nonneg) (hr : g.InRange) {a : ℚ} (
     _ ≤ a ^ K * 2 := mul_le_mul_of_nonneg_left h2 hak
     _ = 2 * a ^ K := by ring
 
+/-! ### the stopping test -/
+
+theorem stepF_nonneg {g : Graph ℚ} (hg : g.Nonneg) (hr : g.InRange) {a : ℚ} (ha : 0 ≤ a) (ha1 : a ≤ 1) {y : ℕ → ℚ}
+    (hy0 : ∀ i, 0 ≤ y i) (hy1 : ∑ i ∈ range g.n, y i = 1) {x : ℕ → ℚ} (hx : ∀ j, j < g.n → 0 ≤ x j) (i : ℕ) :
+    0 ≤ stepF g a y x i := by
+  unfold stepF
+  have h1 := PT_nonneg (patched_subStoch hg hr hy0 hy1) hx i
+  have h2 : 0 ≤ ∑ j ∈ range g.n, x j := sum_nonneg fun j hj => hx j (mem_range.mp hj)
+  have h3 : 0 ≤ (1 - a) * y i * ∑ j ∈ range g.n, x j := mul_nonneg (mul_nonneg (by linarith) (hy0 i)) h2
+  have := mul_nonneg ha h1
+  linarith
+
+/-- a probability vector that the step moves by less than `tol` is within `tol/(1−a)` of the PageRank vector -/
+theorem close_of_small_move {g : Graph ℚ} (hg : g.Nonneg) (hr : g.InRange) {a : ℚ} (ha : 0 ≤ a) (ha1 : a < 1)
+    {y : ℕ → ℚ} (hy0 : ∀ i, 0 ≤ y i) (hy1 : ∑ i ∈ range g.n, y i = 1) {π : ℕ → ℚ} {c : ℚ}
+    (hπ : IsPR g.n (trans g) a y π c) {x : ℕ → ℚ} (hx1 : ∑ i ∈ range g.n, x i = 1) {tol : ℚ}
+    (hmove : l1 g.n (fun i => x i - stepF g a y x i) ≤ tol) :
+    l1 g.n (fun i => x i - π i) ≤ tol / (1 - a) := by
+  have h1a : 0 < 1 - a := by linarith
+  have hc := stepF_contracts hg hr ha hy0 hy1 x π (by rw [hx1, hπ.sum_one])
+  have htri : l1 g.n (fun i => x i - π i)
+      ≤ l1 g.n (fun i => x i - stepF g a y x i) + l1 g.n (fun i => stepF g a y x i - stepF g a y π i) := by
+    unfold l1
+    rw [← sum_add_distrib]
+    apply sum_le_sum; intro i hi
+    have e : x i - π i = (x i - stepF g a y x i) + (stepF g a y x i - stepF g a y π i) := by
+      rw [stepF_fixed hg hr hy1 hπ i (mem_range.mp hi)]; ring
+    show |x i - π i| ≤ |x i - stepF g a y x i| + |stepF g a y x i - stepF g a y π i|
+    rw [e]; exact abs_add_le _ _
+  rw [le_div_iff₀ h1a]
+  nlinarith
+
+/-- the first stopping test compares the *unnormalised* start vector `(1−a)·y` with the first iterate: their distance
+    is exactly `a` -/
+theorem first_move {g : Graph ℚ} (hg : g.Nonneg) (hr : g.InRange) {a : ℚ} (ha : 0 ≤ a) (_ha1 : a ≤ 1) {y : ℕ → ℚ}
+    (hy0 : ∀ i, 0 ≤ y i) (hy1 : ∑ i ∈ range g.n, y i = 1) :
+    ∑ i ∈ range g.n, |(1 - a) * y i - stepF g a y y i| = a := by
+  have hge : ∀ i, (1 - a) * y i ≤ stepF g a y y i := by
+    intro i
+    unfold stepF
+    rw [hy1, mul_one]
+    have := mul_nonneg ha (PT_nonneg (patched_subStoch hg hr hy0 hy1) (fun j _ => hy0 j) i)
+    linarith
+  rw [sum_congr rfl fun i _ => by rw [abs_sub_comm, abs_of_nonneg (sub_nonneg.mpr (hge i))],
+      sum_sub_distrib, sum_stepF hg hr a hy1, ← mul_sum, hy1]
+  ring
+
+/-- the restart distribution itself is within `2a` of the PageRank vector -/
+theorem start_close {g : Graph ℚ} (hg : g.Nonneg) (hr : g.InRange) {a : ℚ} (ha : 0 ≤ a) (_ha1 : a ≤ 1) {y : ℕ → ℚ}
+    (hy0 : ∀ i, 0 ≤ y i) (hy1 : ∑ i ∈ range g.n, y i = 1) {π : ℕ → ℚ} {c : ℚ}
+    (hπ : IsPR g.n (trans g) a y π c) : l1 g.n (fun i => y i - π i) ≤ 2 * a := by
+  -- π − y = a (Qᵀπ − y)
+  have hQ := patched_subStoch hg hr hy0 hy1
+  have e : ∀ i ∈ range g.n, |y i - π i| ≤ a * (PT g.n (patched g y) π i + y i) := by
+    intro i hi
+    have hfix := stepF_fixed hg hr hy1 hπ i (mem_range.mp hi)
+    unfold stepF at hfix
+    rw [hπ.sum_one, mul_one] at hfix
+    have hpt := PT_nonneg hQ hπ.nonneg i
+    have : y i - π i = a * (y i - PT g.n (patched g y) π i) := by linarith
+    rw [this, abs_mul, abs_of_nonneg ha]
+    apply mul_le_mul_of_nonneg_left _ ha
+    rw [abs_le]; constructor <;> linarith [hy0 i]
+  calc l1 g.n (fun i => y i - π i) ≤ ∑ i ∈ range g.n, a * (PT g.n (patched g y) π i + y i) := sum_le_sum e
+    _ = a * (∑ i ∈ range g.n, PT g.n (patched g y) π i + 1) := by rw [← mul_sum, sum_add_distrib, hy1]
+    _ ≤ a * (1 + 1) := by
+        apply mul_le_mul_of_nonneg_left _ ha
+        have := sum_PT_le hQ hπ.nonneg
+        rw [hπ.sum_one] at this
+        linarith
+    _ = 2 * a := by ring
+
+/-- the loop with the stopping test: the vector it returns is `K` exact steps from the start, or the step moved it by
+    less than `tol` -/
+theorem piterLoop_stop {g : Graph ℚ} (hg : g.Nonneg) (hr : g.InRange) {a : ℚ} (ha : 0 ≤ a) (ha1 : a < 1)
+    (y : List ℚ) (hy0 : ∀ i, 0 ≤ vec y i) (hy1 : ∑ i ∈ range g.n, vec y i = 1)
+    {π : ℕ → ℚ} {c : ℚ} (hπ : IsPR g.n (trans g) a (vec y) π c) (tol : ℚ) (K : ℕ) {s : List ℚ} {σ : ℚ} {x : ℕ → ℚ}
+    (h : Rep g.n s σ x) (hσ : σ = 1 ∨ (σ = 1 - a ∧ ∀ i, i < g.n → x i = vec y i)) (E : ℚ)
+    (hE : l1 g.n (fun i => x i - π i) ≤ E) :
+    ∃ σ' X, Rep g.n (piterLoop g.n (surferStep g a y) tol K s) σ' X ∧
+      (l1 g.n (fun i => X i - π i) ≤ a ^ K * E ∨ l1 g.n (fun i => X i - π i) ≤ 2 * tol / (1 - a)) := by
+  have h1a : 0 < 1 - a := by linarith
+  induction K generalizing s σ x E with
+  | zero => exact ⟨σ, x, h, Or.inl (by simpa using hE)⟩
+  | succ k ih =>
+    unfold piterLoop
+    simp only
+    have hround := h.round hg hr a y hy1
+    by_cases hstop : l1dist g.n s (normalizeV g.n (surferStep g a y s)) < tol
+    · rw [if_pos hstop]
+      refine ⟨σ, x, h, Or.inr ?_⟩
+      have hd : l1dist g.n s (normalizeV g.n (surferStep g a y s))
+          = ∑ i ∈ range g.n, |σ * x i - stepF g a (vec y) x i| := by
+        rw [l1dist_eq]
+        exact sum_congr rfl fun i hi => by
+          rw [h.eq i (mem_range.mp hi), hround.eq i (mem_range.mp hi), one_mul]
+      rw [hd] at hstop
+      rcases hσ with h1 | ⟨h1, hxy⟩
+      · -- a probability vector moved by less than tol
+        subst h1
+        have hmove : l1 g.n (fun i => x i - stepF g a (vec y) x i) ≤ tol := by
+          unfold l1
+          have : ∑ i ∈ range g.n, |x i - stepF g a (vec y) x i| = ∑ i ∈ range g.n, |1 * x i - stepF g a (vec y) x i| :=
+            sum_congr rfl fun i _ => by rw [one_mul]
+          rw [this]; exact le_of_lt hstop
+        have := close_of_small_move hg hr ha ha1 hy0 hy1 hπ h.sum_one hmove
+        have htol : 0 ≤ tol := le_trans (sum_nonneg fun _ _ => abs_nonneg _) (le_of_lt hstop)
+        calc l1 g.n (fun i => x i - π i) ≤ tol / (1 - a) := this
+          _ ≤ 2 * tol / (1 - a) := div_le_div_of_nonneg_right (by linarith) (le_of_lt h1a)
+      · -- the first test: the start vector (1−a)·y against the first iterate; their distance is a
+        subst h1
+        have hfm := first_move hg hr ha (le_of_lt ha1) hy0 hy1
+        have hxy' : ∑ i ∈ range g.n, |(1 - a) * x i - stepF g a (vec y) x i|
+            = ∑ i ∈ range g.n, |(1 - a) * vec y i - stepF g a (vec y) (vec y) i| :=
+          sum_congr rfl fun i hi => by
+            rw [hxy i (mem_range.mp hi), stepF_congr g a (vec y) x (vec y) hxy i]
+        rw [hxy', hfm] at hstop
+        have hsc := start_close hg hr ha (le_of_lt ha1) hy0 hy1 hπ
+        have hxl : l1 g.n (fun i => x i - π i) = l1 g.n (fun i => vec y i - π i) :=
+          sum_congr rfl fun i hi => by show |x i - π i| = |vec y i - π i|; rw [hxy i (mem_range.mp hi)]
+        rw [hxl]
+        have h2 : 2 * a ≤ 2 * tol / (1 - a) := by
+          rw [le_div_iff₀ h1a]
+          nlinarith
+        linarith
+    · rw [if_neg hstop]
+      have hc := stepF_contracts hg hr ha hy0 hy1 x π (by rw [h.sum_one, hπ.sum_one])
+      have hE' : l1 g.n (fun i => stepF g a (vec y) x i - π i) ≤ a * E := by
+        have e : l1 g.n (fun i => stepF g a (vec y) x i - π i)
+            = l1 g.n (fun i => stepF g a (vec y) x i - stepF g a (vec y) π i) := by
+          unfold l1
+          apply sum_congr rfl; intro i hi
+          show |_ - π i| = |_ - stepF g a (vec y) π i|
+          rw [stepF_fixed hg hr hy1 hπ i (mem_range.mp hi)]
+        rw [e]
+        exact hc.trans (mul_le_mul_of_nonneg_left hE ha)
+      obtain ⟨σ', X, hrep, hor⟩ := ih hround (Or.inl rfl) (a * E) hE'
+      refine ⟨σ', X, hrep, ?_⟩
+      rcases hor with h3 | h3
+      · left; rw [pow_succ]; calc _ ≤ a ^ k * (a * E) := h3
+          _ = a ^ k * a * E := by ring
+      · right; exact h3
+
+/-- ★ `piter_stop_error` : for every `n_iter = K` and every tolerance the output of `solver='piteration'` is within
+    `max (2 a^K) (2·tol/(1−a))` (ℓ1) of the PageRank vector -/
+theorem piter_close_tol {g : Graph ℚ} (hg : g.Nonneg) (hr : g.InRange) {a : ℚ} (ha : 0 ≤ a) (ha1 : a < 1)
+    (y : List ℚ) (hy0 : ∀ i, 0 ≤ vec y i) (hy1 : ∑ i ∈ range g.n, vec y i = 1)
+    {π : ℕ → ℚ} {c : ℚ} (hπ : IsPR g.n (trans g) a (vec y) π c) (tol : ℚ) (K : ℕ) :
+    ∑ i ∈ range g.n, |(piteration g a y K tol).getD i 0 - π i| ≤ max (2 * a ^ K) (2 * tol / (1 - a)) := by
+  have hb : Rep g.n (surferB g a y) (1 - a) (vec y) :=
+    ⟨by unfold surferB; simp, by linarith, fun i hi => by unfold surferB vec; rw [tab_getD, if_pos hi], hy1⟩
+  have h2 : l1 g.n (fun i => vec y i - π i) ≤ 2 := by
+    unfold l1
+    calc ∑ i ∈ range g.n, |vec y i - π i| ≤ ∑ i ∈ range g.n, (vec y i + π i) := by
+          apply sum_le_sum; intro i hi
+          have h1 := hy0 i
+          have h2 := hπ.nonneg i (mem_range.mp hi)
+          rw [abs_le]; constructor <;> linarith
+      _ = 2 := by rw [sum_add_distrib, hy1, hπ.sum_one]; norm_num
+  obtain ⟨σ', X, hrep, hor⟩ := piterLoop_stop hg hr ha ha1 y hy0 hy1 hπ tol K hb (Or.inr ⟨rfl, fun _ _ => rfl⟩) 2 h2
+  have hout : ∀ i, i < g.n → (piteration g a y K tol).getD i 0 = X i := fun i hi => hrep.normalize i hi
+  rw [sum_congr rfl fun i hi => by rw [hout i (mem_range.mp hi)]]
+  rcases hor with h | h
+  · refine le_max_of_le_left ?_
+    have e : a ^ K * 2 = 2 * a ^ K := by ring
+    rw [← e]; exact h
+  · exact le_max_of_le_right h
+
 end SkNet.Rank
